@@ -1,4 +1,72 @@
 import OdxVerif.Common.Sexp
-/-! driver stub for the nil family (to be written) -/
-open OdxVerif
-def main : IO Unit := driverMain fun _ => "(not-implemented)"
+import OdxVerif.Model.Nil
+/-! line-protocol driver for the NamedItemList model (property C16)
+
+  request : `(nil (kw k…) (reserved r…) (hists (h <from> op…) …))`
+            op = `(append I)` `(insert i I)` `(extend I…)` `(remove I)` `(pop i)` `(clear)` `(copy)` `(copy2)`
+                 `(deepcopy stride)` `(pickle stride)`;  item `I = (oid shortname eqclass)`; `-` = empty name
+  reply   : one trace per history joined by `;` — per step (from index `from` on)
+            `(outcome (items oid…) (names (key oid)…) (attr a…) (len n))`,
+            `attr` = `getattr` of every key in order (`own` | oid | `missing`) -/
+open OdxVerif OdxVerif.Nil
+
+def nameOf (s : String) : Name := if s == "-" then [] else s.toList
+def nameStr (n : Name) : String := if n.isEmpty then "-" else String.ofList n
+
+def parseItem : Sexp → Option Item
+  | .list [a, b, c] => do
+    let oid ← a.asNat?
+    let sn ← b.asAtom?
+    let e ← c.asNat?
+    pure ⟨oid, nameOf sn, e⟩
+  | _ => none
+
+def parseOp : Sexp → Option Op
+  | .list [.atom "append", x] => Op.append <$> parseItem x
+  | .list [.atom "insert", i, x] => do pure (Op.insert (← i.asInt?) (← parseItem x))
+  | .list (.atom "extend" :: xs) => Op.extend <$> xs.mapM parseItem
+  | .list [.atom "remove", x] => Op.remove <$> parseItem x
+  | .list [.atom "pop", i] => Op.pop <$> i.asInt?
+  | .list [.atom "clear"] => some Op.clear
+  | .list [.atom "copy"] => some Op.copy
+  | .list [.atom "copy2"] => some Op.copy2
+  | .list [.atom "deepcopy", k] => Op.deepcopy <$> k.asNat?
+  | .list [.atom "pickle", k] => Op.pickle <$> k.asNat?
+  | _ => none
+
+def outcomeStr : Outcome → String
+  | .ok => "ok" | .raised => "foreign" | .diverged => "diverged"
+
+def attrStr : Attr → String
+  | .own => "own" | .item x => toString x.oid | .missing => "missing"
+
+def stateStr (env : Env) (r : State × Outcome) : String :=
+  let s := r.1
+  let items := " ".intercalate (s.items.map fun x => toString x.oid)
+  let names := " ".intercalate (s.names.map fun kv => s!"({nameStr kv.1} {kv.2.oid})")
+  let attrs := " ".intercalate (s.names.map fun kv => attrStr (getattr env s kv.1))
+  let gets := " ".intercalate (s.names.map fun kv =>
+    match lookup s.names kv.1 with | some x => toString x.oid | none => "missing")
+  s!"({outcomeStr r.2} (items {items}) (names {names}) (attr {attrs}) (get {gets}) (len {s.items.length}))"
+
+def histStr (env : Env) : Sexp → String
+  | .list (.atom "h" :: frm :: ops) =>
+    match frm.asNat?, ops.mapM parseOp with
+    | some k, some ops => " ".intercalate (((trace env State.empty ops).drop k).map (stateStr env))
+    | _, _ => "(bad-args)"
+  | _ => "(bad-args)"
+
+def handle (sx : Sexp) : String :=
+  match sx with
+  | .list (.atom "nil" :: fields) =>
+    match Sexp.field? fields "kw", Sexp.field? fields "reserved", Sexp.field? fields "hists" with
+    | some kw, some rs, some hs =>
+      match kw.mapM Sexp.asAtom?, rs.mapM Sexp.asAtom? with
+      | some kw, some rs =>
+        let env : Env := ⟨kw.map nameOf, rs.map nameOf⟩
+        ";".intercalate (hs.map (histStr env))
+      | _, _ => "(bad-args)"
+    | _, _, _ => "(bad-args)"
+  | _ => "(bad-op)"
+
+def main : IO Unit := driverMain handle
